@@ -86,7 +86,7 @@ PROPS = {
     "C05": {
         "title": "No silent truncation: a transport fault yields whole messages, then an error",
         "level": "fault_enumeration",
-        "rule": "rapid-generated valid stream (C03 generator, both roles, compressed or not) x EVERY cut offset 0..len (exhaustive for streams <= 600 bytes, boundary+300 evenly spaced offsets above) x 10 fault behaviours {EOF, EOF with the last bytes, io.ErrUnexpectedEOF, io.ErrUnexpectedEOF with bytes, error, error with bytes, timeout, timeout with bytes, timeout then the transport resumes, error+bytes then resumes} x chunking x read program (incl. reads >= bufio size, abandonment; a sixth of the cases consume the whole stream through one JoinMessages reader with terminator "", "\\n" or "||") x 1..900 later calls; oracle: delivered messages are byte-identical prefixes of the sent ones, a message is reported complete only if all its wire bytes arrived (or its deflate stream is self-terminating), every message that had fully arrived before the failing transport read is delivered, partial message => non-nil error != io.EOF, an error follows, and NextReader keeps returning the same error and nothing more; a message reader that has failed is read twice more and must return no data and an error other than io.EOF; a joined stream never ends with io.EOF in the middle of a message and its terminator appears only after fully arrived messages. Non-trivial = (case, offset, kind) with the cut inside a frame header, inside a payload or between two fragments of a message.",
+        "rule": "rapid-generated valid stream (C03 generator, both roles, compressed or not) x EVERY cut offset 0..len (exhaustive for streams <= 600 bytes, boundary+300 evenly spaced offsets above) x 10 fault behaviours {EOF, EOF with the last bytes, io.ErrUnexpectedEOF, io.ErrUnexpectedEOF with bytes, error, error with bytes, timeout, timeout with bytes, timeout then the transport resumes, error+bytes then resumes} x chunking x read program (incl. reads >= bufio size, abandonment; a sixth of the cases consume the whole stream through one JoinMessages reader with an empty, newline or two-character terminator) x 1..900 later calls; oracle: delivered messages are byte-identical prefixes of the sent ones, a message is reported complete only if all its wire bytes arrived (or its deflate stream is self-terminating), every message that had fully arrived before the failing transport read is delivered, partial message => non-nil error != io.EOF, an error follows, and NextReader keeps returning the same error and nothing more; a message reader that has failed is read twice more and must return no data and an error other than io.EOF; a joined stream never ends with io.EOF in the middle of a message and its terminator appears only after fully arrived messages. Non-trivial = (case, offset, kind) with the cut inside a frame header, inside a payload or between two fragments of a message.",
         "assumptions": TRUST + ["fault behaviours are the legal io.Reader behaviours listed; kernel-level partial reads are modelled by the chunk plan"],
         "level_text": "Every byte offset of each generated stream is cut by every fault kind (exhaustive per stream up to 600 bytes); streams themselves are sampled.",
         "level_note": "Reference model from the independent encoder; which transport read failed is taken from the scripted transport's own accounting.",
